@@ -138,7 +138,7 @@ def match_known(prop, mod, case, known):
     return None
 
 def write_replay(prop, case, note=None):
-    d = os.path.join(VERIF, "replays")
+    d = os.path.join(build.OUTDIR, "replays")
     os.makedirs(d, exist_ok=True)
     body = {"property": prop, "case": case.get("sx"), "kind": case.get("kind"), "message": case.get("fields"),
             "obs": case.get("obs"), "meta": case.get("meta"), "note": note}
@@ -148,7 +148,7 @@ def write_replay(prop, case, note=None):
     return p
 
 def write_evidence(prop, ev):
-    d = os.path.join(VERIF, "evidence")
+    d = os.path.join(build.OUTDIR, "evidence")
     os.makedirs(d, exist_ok=True)
     json.dump(ev, open(os.path.join(d, prop + ".json"), "w"), indent=1)
 
